@@ -553,3 +553,153 @@ def reads_needed(lens, end, total):
         if acc >= min(end, total):
             return i + 1 + (1 if end > total else 0)
     return len(lens) + (1 if end > total else 0)
+
+
+# ------------------------------------------------------------------ C06: boundary values and declared limits
+def limit_cases(rng):
+    """yields (parser, ty, flags, data, expectation) with expectation a trace or 'REJECT'"""
+    out = []
+    def dim(parser, ty, flags, text, exp):
+        out.append((parser, ty, flags, text.encode(), exp))
+    for ty, tmax in DIMACS_TYPES.items():
+        v = rng.choice([1, 5, min(tmax, 1000)])
+        # literals against the declared variable count
+        dim("cnf", ty, "-", "p cnf %d 1\n%d -%d 0\n" % (v, v, v), "H(%d,1);[%d,-%d] => ok" % (v, v, v))
+        dim("cnf", ty, "-", "p cnf %d 1\n%d 0\n" % (v, v + 1), "REJECT")
+        dim("cnf", ty, "-", "p cnf %d 1\n-%d 0\n" % (v, v + 1), "REJECT")
+        dim("cnf", ty, "h", "p cnf %d 1\n%d 0\n" % (v, min(v + 1, tmax)), "H(%d,1);[%d] => ok" % (v, min(v + 1, tmax)))
+        # the type's own limit
+        dim("cnf", ty, "-", "%d -%d 0\n" % (tmax, tmax), "H-;[%d,-%d] => ok" % (tmax, tmax))
+        dim("cnf", ty, "-", "%d 0\n" % (tmax + 1), "REJECT")
+        dim("cnf", ty, "-", "-%d 0\n" % (tmax + 1), "REJECT")
+        dim("cnf", ty, "-", "p cnf %d 0\n" % tmax, "H(%d,0) => ok" % tmax)
+        dim("cnf", ty, "-", "p cnf %d 0\n" % (tmax + 1), "REJECT")
+        dim("cnf", ty, "-", "1 %s 0\n" % ("9" * 40), "REJECT")
+        # exactly the declared number of clauses
+        c = rng.choice([1, 2, 4])
+        body = "".join("%d 0\n" % ((i % v) + 1) for i in range(c))
+        items = ";".join("[%d]" % ((i % v) + 1) for i in range(c))
+        dim("cnf", ty, "-", "p cnf %d %d\n%s" % (v, c, body), "H(%d,%d);%s => ok" % (v, c, items))
+        dim("cnf", ty, "-", "p cnf %d %d\n%s" % (v, c + 1, body), "REJECT")
+        dim("cnf", ty, "-", "p cnf %d %d\n%s1 0\n" % (v, c, body), "REJECT")
+        dim("cnf", ty, "h", "p cnf %d %d\n%s1 0\n" % (v, c, body), "H(%d,%d);%s;[1] => ok" % (v, c, items))
+        dim("cnf", ty, "-", "p cnf %d 0\n%s1 0\n" % (v, body), "H(%d,0);%s;[1] => ok" % (v, items))   # 0 = unspecified
+        # wcnf weights and top
+        dim("wcnf", ty, "-", "p wcnf %d 1 %d\n%d %d 0\n" % (v, U64, U64, v), "H(%d,1,%d);%d:[%d] => ok" % (v, U64, U64, v))
+        dim("wcnf", ty, "-", "p wcnf %d 1 5\n%d %d 0\n" % (v, U64 + 1, v), "REJECT")
+        dim("wcnf", ty, "-", "p wcnf %d 1 %d\n1 %d 0\n" % (v, U64 + 1, v), "REJECT")
+        dim("wcnf", ty, "-", "p wcnf %d 1 5\n1 %d 0\n" % (v, v + 1), "REJECT")
+        # gcnf groups
+        g = rng.choice([1, 3])
+        dim("gcnf", ty, "-", "p gcnf %d 1 %d\n{%d} %d 0\n" % (v, g, g, v), "H(%d,1,%d);{%d}[%d] => ok" % (v, g, g, v))
+        dim("gcnf", ty, "-", "p gcnf %d 1 %d\n{%d} %d 0\n" % (v, g, g + 1, v), "REJECT")
+        dim("gcnf", ty, "h", "p gcnf %d 1 %d\n{%d} %d 0\n" % (v, g, g + 1, v), "H(%d,1,%d);{%d}[%d] => ok" % (v, g, g + 1, v))
+        dim("gcnf", ty, "-", "p gcnf %d 1 0\n{%d} %d 0\n" % (v, 10 ** 15, v), "H(%d,1,0);{%d}[%d] => ok" % (v, 10 ** 15, v))
+        dim("gcnf", ty, "-", "{%d} 1 0\n" % (U64 + 1), "REJECT")
+        # solver log
+        dim("log", ty, "-", "s SATISFIABLE\nv %d -%d 0\n" % (tmax, tmax), "sat=T a=[%d,-%d] => ok" % (tmax, tmax))
+        dim("log", ty, "-", "s SATISFIABLE\nv %d 0\n" % (tmax + 1), "REJECT")
+    for ty, cmax in AIGER_TYPES.items():
+        mmax = (cmax - 1) // 2
+        for tag in ("aag", "aig"):
+            binary = tag == "aig"
+            out.append((tag, ty, "-", ("%s %d 0 0 1 0\n%d\n" % (tag, mmax, 2 * mmax + 1)).encode(),
+                        "H(%d,0,0,1,0,0,0,0,0);o:%d => ok" % (mmax, 2 * mmax + 1)))
+            out.append((tag, ty, "-", ("%s %d 0 0 1 0\n%d\n" % (tag, mmax, 2 * mmax + 2)).encode(), "REJECT"))
+            out.append((tag, ty, "-", ("%s %d 0 0 0 0\n" % (tag, mmax + 1)).encode(), "REJECT"))
+            out.append((tag, ty, "-", ("%s 2 1 1 0 1\n" % tag).encode() + (b"4 1\n" if binary else b"2\n4 1\n") , "REJECT"))   # I+L+A > M
+            out.append((tag, ty, "-", ("%s 01 0 0 0 0\n" % tag).encode(), "REJECT"))                                            # leading zero
+            out.append((tag, ty, "-", ("%s 1 0 0 2 0\n1\n" % tag).encode(), "REJECT"))                                          # fewer outputs than declared
+            out.append((tag, ty, "-", ("%s 1 0 0 1 0\n1\n0\n" % tag).encode(), "REJECT"))                                       # more than declared
+        out.append(("aag", ty, "-", b"aag 1 1 0 0 0\n3\n", "REJECT"))     # input literal odd
+        out.append(("aag", ty, "-", b"aag 1 1 0 0 0\n0\n", "REJECT"))     # input literal constant
+        out.append(("aag", ty, "-", b"aag 1 0 0 0 1\n2 0 1\n", "H(1,0,0,0,1,0,0,0,0);a:2,0,1 => ok"))
+        out.append(("aig", ty, "-", b"aig 1 0 0 0 1\n\x03\x00", "REJECT"))   # delta 3 > code 2
+        out.append(("aig", ty, "-", b"aig 1 0 0 0 1\n\x02\x00", "H(1,0,0,0,1,0,0,0,0);a:0,0 => ok"))
+        out.append(("aig", ty, "-", b"aig 1 0 0 0 1\n\x00\x01", "REJECT"))   # second delta 1 > first input 2? (2-0=2, 2-1=1 ok) -> see expectation below
+    # fix the last family: delta0 = 0 -> input0 = 2, delta1 = 1 -> input1 = 1: legal
+    out = [(p, t, f, d, ("H(1,0,0,0,1,0,0,0,0);a:2,1 => ok" if d == b"aig 1 0 0 0 1\n\x00\x01" else e)) for (p, t, f, d, e) in out]
+    for n, exp in ((0, "REJECT"), (U64, None), (U64 + 1, "REJECT")):
+        data = ("%d sort bitvec 1\n" % n).encode()
+        out.append(("btor2", "-", "-", data, exp))
+    return [c for c in out if c[4] is not None]
+
+
+# ------------------------------------------------------------------ C08: single-token corruptions with known position
+def corruption_cases(rng, n):
+    """a well-formed document, one token corrupted; expectation 'ERRAT line col_lo col_hi'"""
+    out = []
+    while len(out) < n:
+        kind = rng.choice(["cnf", "wcnf", "gcnf", "aag", "btor2", "cnf", "cnf"])
+        if kind in ("cnf", "wcnf", "gcnf"):
+            ty = rng.choice(list(DIMACS_TYPES))
+            val = gen_dimacs_value(rng, kind, ty, with_header=rng.random() < 0.7)
+            if not any(val["clauses"]):
+                continue
+            # plain rendering: one clause per line, single spaces: token positions are easy to compute
+            lines = []
+            h = val["header"]
+            if h is not None:
+                extra = [h["top"]] if kind == "wcnf" else ([h["groups"]] if kind == "gcnf" else [])
+                lines.append(["p", kind] + [str(x) for x in [h["var_count"], h["clause_count"]] + extra])
+            for i, c in enumerate(val["clauses"]):
+                toks = []
+                if kind == "wcnf": toks.append(str(val["weights"][i]))
+                if kind == "gcnf": toks.append("{%d}" % val["groups"][i])
+                lines.append(toks + [str(l) for l in c] + ["0"])
+            li = rng.randrange(len(lines))
+            ti = rng.randrange(len(lines[li]))
+            tok = lines[li][ti]
+            how = rng.choice(["garbage", "range", "overflow"])
+            is_lit = not (li == 0 and h is not None) and not tok.startswith("{") and not (kind == "wcnf" and ti == 0) and tok != "0"
+            if how == "garbage" or not is_lit:
+                if li == 0 and h is not None and ti < 2:
+                    continue
+                new = rng.choice(["x", "1x", "--1", "1-", "?"])
+            elif how == "range":
+                lim = (h["var_count"] if h and h["var_count"] else DIMACS_TYPES[ty])
+                if lim >= 2 ** 63 - 1:
+                    continue
+                new = str(rng.choice([1, -1]) * (lim + 1))
+            else:
+                new = rng.choice(["", "-"]) + "9" * 30
+            lines[li][ti] = new
+            text = "\n".join(" ".join(l) for l in lines) + "\n"
+            col = 1 + sum(len(t) + 1 for t in lines[li][:ti])
+            out.append((kind, ty, "-", text.encode(), "ERRAT %d %d %d" % (li + 1, col, col + len(new) - 1 + (1 if new in ("1x", "1-") else 0))))
+        elif kind == "aag":
+            ty = rng.choice(list(AIGER_TYPES))
+            val = gen_aig(rng, ty)
+            data, _ = render_aig(val, False)
+            text = data.decode()
+            lines = text.split("\n")[:-1]
+            nsym = len(val["symbols"]) + (2 if val["comment"] is not None else 0) + (val["comment"].count("\n") if val["comment"] else 0)
+            body = len(lines) - nsym
+            if body <= 1:
+                continue
+            li = rng.randrange(1, body)
+            toks = lines[li].split(" ")
+            ti = rng.randrange(len(toks))
+            new = rng.choice(["x", "-1", "99999999999999999999999", str(2 * val["M"] + 2)])
+            jn_start = 1 + val["I"] + len(val["latches"]) + len(val["outputs"]) + len(val["bad"]) + len(val["constraints"])
+            if jn_start <= li < jn_start + len(val["justice"]):
+                new = "x"      # a different count is still a count: only garbage is unambiguous here
+            toks[ti] = new
+            col = 1 + sum(len(t) + 1 for t in toks[:ti])
+            lines[li] = " ".join(toks)
+            out.append(("aag", ty, "-", ("\n".join(lines) + "\n").encode(), "ERRAT %d %d %d" % (li + 1, col, col + len(new) - 1)))
+        else:
+            lines = [l for l in gen_btor2_lines(rng, rng.choice([2, 5, 9])) if not l.startswith(";")]
+            if not lines:
+                continue
+            li = rng.randrange(len(lines))
+            toks = lines[li].split(" ")
+            ti = rng.randrange(0, min(len(toks), 3))
+            new = rng.choice(["Xx", "0", "?", "18446744073709551616"]) if ti != 1 else rng.choice(["Xx", "andd", "s0rt"])
+            if toks[ti] == new:
+                continue
+            toks[ti] = new
+            col = 1 + sum(len(t) + 1 for t in toks[:ti])
+            lines[li] = " ".join(toks)
+            out.append(("btor2", "-", "-", ("\n".join(lines) + "\n").encode(), "ERRAT %d %d %d" % (li + 1, col, col + len(new))))
+    return out
